@@ -2,7 +2,7 @@
    ok_ev L st ev = true  iff  event ev is admissible in state st at ladder level L:
      L = 1  no lost or duplicated replies, no failed requests, no restart, no crash, no leader change
             (re-replication, fixVersion, delayed replies, stale caches, probes of ChangeTract allowed);
-     L = 2  + lost replies, requests failed without executing (a request executed twice is an open case);
+     L = 2  + lost replies, requests executed twice, requests failed without executing;
      L = 3  + tractserver restart;
      L = 4  + leader change.
    At every level:
@@ -17,7 +17,7 @@
      - the F21 carve-out: no SUPERSEDED PullTract takes effect, i.e. no PullTract whose requested version is
        already committed (<= the durable version) executes at a server whose copy is absent or at a version
        <= the requested one (the only case in which pullTractOnce touches the local copy);
-     - no crash in the middle of PullTract (open case, see notes). *)
+     - no crash in the middle of PullTract (open case, see notes/C01.md). *)
 From Coq Require Import List ZArith Bool Lia.
 From BLB Require Import Gen.Consts Cluster.Model.
 Import ListNotations.
@@ -80,7 +80,7 @@ Definition stale_pull (st : state) (r : rpc) : bool :=
   end.
 
 Definition mode_ok (L mode : Z) : bool :=
-  if L <=? 1 then (mode =? 1) || (mode =? 5) else (mode =? 1) || (mode =? 2) || (mode =? 4) || (mode =? 5).
+  if L <=? 1 then (mode =? 1) || (mode =? 5) else (1 <=? mode) && (mode <=? 5).
 
 Definition ok_ev (L : Z) (st : state) (ev : list Z) : bool :=
   match ev with
